@@ -293,7 +293,7 @@ def check_sample(w, st, nid, net, rec, S, msgs):
             if N >= 2 and nk >= 2:
                 for a in range(len(srcs)):
                     for b in range(a + 1, len(srcs)):
-                        ia, ib = idx[srcs[a]], idx[srcs[b]]
+                      for ia, ib in ((idx[srcs[a]], idx[srcs[b]]), (idx[srcs[b]], idx[srcs[a]])):
                         repeats = len(ia) - len(set(ia))
                         if repeats * math.log2(N) < 64:
                             continue
